@@ -5,15 +5,15 @@ ID = 'C12'
 PKG = '.'
 HARNESS_FILES = ['pkg/frame/zz_verif_common.go', 'pkg/frame/zz_verif_dialect.go', 'pkg/frame/zz_verif_c02.go',
                  'pkg/frame/zz_verif_c05.go', 'pkg/frame/zz_verif_c06.go', 'pkg/frame/zz_verif_export.go',
-                 'pkg/frame/zz_verif_msgs.go', 'zz_verif_node.go', 'zz_verif_c10.go', 'zz_verif_life.go']
+                 'pkg/frame/zz_verif_msgs.go', 'zz_verif_node.go', 'zz_verif_c10.go', 'zz_verif_life.go', 'zz_verif_c12.go']
 KERNEL_PKGS = ['.']
 ROOTS = [r'v3\.verifHarness_C12']
-ALLOW = 'bufio,io,encoding/binary,errors,bytes'
-INITS = 'io,bufio,errors,github.com/bluenviron/gomavlib/v3/pkg/message,github.com/bluenviron/gomavlib/v3/pkg/frame'
-OPTIONS = {'x25_uf': True}
+ALLOW = 'bufio,io,encoding/binary,errors,bytes,time'
+INITS = 'io,bufio,errors,time,github.com/bluenviron/gomavlib/v3/pkg/message,github.com/bluenviron/gomavlib/v3/pkg/frame'
+OPTIONS = {'x25_uf': True, 'now_stub': True}
 NATIVE = False
 ANCHOR_FILES = ['/repo/node.go', '/repo/channel.go', '/repo/channel_provider.go', '/repo/endpoint_custom.go']
-LEVEL_TEXT = ('bounded symbolic execution of the real Node/Channel/provider code under a cooperative goroutine scheduler: four scripted '
+LEVEL_TEXT = ('bounded symbolic execution of the real Node/Channel/provider code under a cooperative goroutine scheduler: six scripted '
               'close scenarios, ONE schedule each (every goroutine runs until it blocks, round-robin, to quiescence); a violation is a real '
               'reachable state, a pass covers that schedule only')
 LEVEL_NOTE = ('NOT the for-all-schedules claim of the property: one deterministic schedule per scenario; custom endpoint only (no listeners, '
@@ -22,16 +22,16 @@ TECHNIQUE = 'symbolic execution of go/ssa under a deterministic cooperative goro
 
 
 def tasks(tier):
-    return [Task('verifHarness_C12_close', [s]) for s in (0, 1, 2, 3)]
+    return [Task('verifHarness_C12_close', [s]) for s in (0, 1, 2, 3)] + [Task('verifHarness_C12_close2', [s]) for s in (4, 5)]
 
 
 def required_reach(tier):
-    return ['C12/close']
+    return ['C12/close', 'C12/close2']
 
 
 def bounds(tier):
     return {'scenarios': 'Close with (0) the application consuming and the channel idle, (1) the consumer stopped and the reader stuck on the '
-                         'undelivered open event, (2) the writer stuck inside a transport Write, (3) right after Initialize with a write racing',
+                         'undelivered open event, (2) the writer stuck inside a transport Write, (3) right after Initialize with a write racing, (4) while a provider is still connecting (the connection completes afterwards and must be released), (5) stream requests enabled, the reader stuck on an undelivered event with an ArduPilot heartbeat buffered behind it',
             'schedule': 'ONE: goroutines run round-robin, each until it blocks, to quiescence',
             'endpoint': 'custom transport only',
             'NOT DECIDED': 'every other interleaving; TCP/UDP/serial endpoints, listening ports and accepted connections; provider in '
